@@ -6,6 +6,7 @@
    invariant is stated for EVERY recorded intermediate state, so a run cut anywhere satisfies it. *)
 From Coq Require Import ZArith List Arith Permutation QArith.
 From BCT Require Import Base.Mat Base.ListX Model.Rewire Model.RewireSpec Proofs.RewireSwap Proofs.RewireInv Proofs.RewireRun Proofs.RewireBin Proofs.RewireSpec Gen.RewireTable.
+From BCT Require Import Model.Components Model.RewireBin Proofs.RewireBinFull.
 Import ListNotations.
 Open Scope Z_scope.
 
@@ -62,8 +63,7 @@ Theorem C01_attempt : forall v n k st s st' s' o, (0 < k)%nat ->
 Proof. exact attempt_spec. Qed.
 
 (* randomizer_bin_und: its swap a-b, c-d -> a-c, b-d keeps every degree, the entry counts, symmetry and the
-   diagonal of the working matrix.  (The complement / full-node masking wrapper of that routine is NOT modelled:
-   C01_rbu is `_partial`; the wrapper is covered by the direct oracle and the per-swap hook in harness/c01.py.) *)
+   diagonal of the working matrix.  (This is the step lemma; the whole routine is C01_rbu_full below.) *)
 Theorem C01_rbu_step_partial : forall R a b c d,
   a <> b -> a <> c -> a <> d -> b <> c -> b <> d -> c <> d ->
   (forall x y, R x y = R y x) -> rbu_admissible R a b c d = true ->
@@ -73,6 +73,29 @@ Theorem C01_rbu_step_partial : forall R a b c d,
   (forall x y, rbu_swap R a b c d x y = rbu_swap R a b c d y x) /\
   (forall x, rbu_swap R a b c d x x = R x x).
 Proof. exact rbu_step. Qed.
+
+(* randomizer_bin_und, WHOLE routine (Model/RewireBin.v: binarise, symmetry check, inf sentinel, complement of dense
+   graphs, masking and restoring of full nodes, mate search, swap, patch loop — statement by statement), every stream:
+   the returned 0/1 matrix gives every node the degree it has in the support of the input, is symmetric, binary off the
+   diagonal, has the input's (binarised) diagonal, the same number of connections; the binarised input is symmetric
+   whenever the run returns (the model checks it); every recorded intermediate working matrix satisfies the loop
+   invariant (edge arrays list exactly the connections, pairwise distinct as unordered pairs) and has the degrees of
+   the working matrix the loop started from (rbu_start_degrees relates that matrix to the input). *)
+Theorem C01_rbu_full : forall n R0 alpha s out tr lft,
+  randomizer_bin_und n R0 alpha s = RbuOk out tr lft ->
+  (forall x, (x < n)%nat -> offdeg n out x = offdeg n (bin01 R0) x) /\
+  (forall x y, (x < n)%nat -> (y < n)%nat -> out x y = out y x) /\
+  (forall x y, (x < n)%nat -> (y < n)%nat -> x <> y -> out x y = 0 \/ out x y = 1) /\
+  (forall x, (x < n)%nat -> out x x = bin01 R0 x x) /\
+  sumn (offdeg n out) n = sumn (offdeg n (bin01 R0)) n /\
+  (forall x y, (x < n)%nat -> (y < n)%nat -> bin01 R0 x y = bin01 R0 y x) /\
+  Forall (EvI n (rbu_k n R0) (rbu_R3 n R0)) tr.
+Proof. exact rbu_full. Qed.
+
+Theorem C01_rbu_start_degrees : forall n R0 x, symmetricb n (bin01 R0) = true -> (x < n)%nat ->
+  offdeg n (rbu_R2 n R0) x = (if rbu_swapped n R0 then Z.of_nat n - 1 - offdeg n (bin01 R0) x else offdeg n (bin01 R0) x) /\
+  offdeg n (rbu_R3 n R0) x = (if nmem x (rbu_fl n R0) then 0 else offdeg n (rbu_R2 n R0) x - nfull n (rbu_R2 n R0)).
+Proof. exact rbu_start_degrees. Qed.
 
 (* the tie by translation: Gen/RewireTable.v is regenerated from the AST of bct/algorithms/reference.py on every
    run (harness/translate_rewire.py); the swap table read off the source (edge-list source, four-distinct test,
@@ -109,5 +132,7 @@ Print Assumptions C01_run_caller.
 Print Assumptions C01_partial_und.
 Print Assumptions C01_attempt.
 Print Assumptions C01_rbu_step_partial.
+Print Assumptions C01_rbu_full.
+Print Assumptions C01_rbu_start_degrees.
 Print Assumptions C01_source_table.
 Print Assumptions C01_engine_is_table.
